@@ -267,7 +267,11 @@ def _run_case(REG, case, rnd, env):
             inconclusive += 1
             continue
         core = [str(x).split('!', 2)[2] for x in s2.unsat_core()]
-        return dict(status='violation', clause=','.join(sorted(core)) or 'post', what=what, input=case.describe(env))
+        # name the violation by the clauses that are specific to this contract (invariant clauses in the core are context)
+        generic = ('W1', 'W2', 'W3', 'W4', 'W5', 'W6', 'W7', 'W8', 'W9', 'Ext', 'AGREE', 'ONES', 'QE-', 'QABOVE', 'HASLVL', 'REACH', 'enc-')
+        specific = [x for x in core if not x.startswith(generic) and not x.startswith('WF[')]
+        return dict(status='violation', clause=','.join(sorted(specific or core)) or 'post', core=sorted(core), what=what,
+                    input=case.describe(env))
     if inconclusive == reps:
         return dict(status='inconclusive', where='post')
     return dict(status='ok', what=what, instances=reps - inconclusive)
